@@ -327,14 +327,22 @@ class StreamIO:
         Close connection. Buffered data is sent first, as long as the peer
         takes some of it within `write_timeout`.
         """
+        unsent = self._unsent()
         self.writer.close()
-        if self.write_timeout is not None:
+        if unsent and self.write_timeout is not None:
             self._abort_if_stuck(None)
+
+    def _unsent(self):
+        try:
+            return self.writer.transport.get_write_buffer_size()
+        except AttributeError:
+            # a tls transport which has been closed before
+            return 0
 
     def _abort_if_stuck(self, seen):
         # a closing transport keeps the socket until its buffer is sent: a
         # peer which takes nothing for `write_timeout` is not waited for
-        size = self.writer.transport.get_write_buffer_size()
+        size = self._unsent()
         if size and seen is not None and size >= seen:
             self.abort()
         elif size:
@@ -352,7 +360,7 @@ class StreamIO:
         Close connection, but do not wait for a peer which has not taken
         the buffered data.
         """
-        if self.writer.transport.get_write_buffer_size():
+        if self._unsent():
             self.abort()
         else:
             self.close()
